@@ -107,12 +107,16 @@ typedef struct { uint64_t l[4]; } c11_u256;
 /* ---- accessors implemented in C11_wrap.c on the real struct ------------------------------------ */
 void          *c11_ctx(void);                    /* the context object under test (static storage)   */
 unsigned char *c11_buf(void);                    /* its pending-bytes buffer, C11_BLOCK bytes        */
+unsigned char *c11_image_buf(void);              /* a second buffer of the same type: pre-state image, filled once */
+void           c11_load_buf(void);               /* buffer := image (one whole-object assignment, cheap in SSA)  */
+unsigned char  c11_buf_at(unsigned i);           /* read byte i of the buffer without a pointer dereference */
 c11_word      *c11_state(void);                  /* its chaining state, C11_STATE_W words            */
 void           c11_set_count(c11_u256 v);        /* raw counter in the algorithm's unit              */
 c11_u256       c11_get_count(void);
 void           c11_set_variant(void);            /* is224/is384 flag resp. SHA-3 block size          */
 #if ALG == ALG_GOST
 uint32_t      *c11_sum(void);                    /* GOST: 256-bit checksum, 8 words                  */
+uint32_t      *c11_len(void);                    /* GOST: 256-bit bit counter, 8 words               */
 #endif
 void           c11_update(const unsigned char *d, size_t n);
 void           c11_finish(void);
@@ -127,6 +131,18 @@ static inline unsigned char c11_block_byte(const c11_word *d, unsigned j)
 #else
   return (unsigned char) (d[j / C11_W] >> (8 * (j % C11_W)));
 #endif
+}
+
+/* the word that represents C11_W consecutive stream bytes */
+static inline c11_word c11_word_of(const unsigned char *p)
+{
+  c11_word w = 0; unsigned i;
+#if C11_BE
+  for (i = 0; i < C11_W; i++) w = (c11_word) (w << 8) | p[i];
+#else
+  for (i = 0; i < C11_W; i++) w |= (c11_word) p[i] << (8 * i);
+#endif
+  return w;
 }
 
 /* reference 256-bit addition (trusted, 4 x 64-bit limbs with explicit carries) */
